@@ -60,7 +60,24 @@ def gen_scenarios(ctx, n):
                     r['split'] = rng.randrange(64, mlen + 20)
                 burst.append(r)
             bursts.append(burst)
-        out.append(dict(mtu=mtu, bursts=bursts))
+        sc = dict(mtu=mtu, bursts=bursts)
+        if s % 4 == 1:
+            # pressure, then an address goes away: a burst above the queue bound while the transmit path is stalled (requests
+            # are dropped), the pinged address is removed once the burst has quiesced, later requests to it are "addressed to
+            # someone else" and must stay unanswered, requests to the remaining address are answered
+            gone, stays = rng.choice([('own1', 'own2'), ('own2', 'own1')])
+            fresh = lambda: dict(v=4, ident=rng.randrange(65536), seq=rng.randrange(65536), plen=rng.randrange(0, 64), cuts=[], order=[], split=0, dup=False)
+            mk = lambda dst, v=4: dict(fresh(), dst=dst, v=v)
+            b0 = [mk(gone) for _ in range(rng.choice([12, 13, 16, 25]))] + [mk(stays) for _ in range(rng.choice([0, 2]))]
+            b1 = [mk(gone) for _ in range(3)] + [mk(stays), mk(gone, 6), mk(stays, 6)]
+            rng.shuffle(b1)
+            uniq, seen = [], set()
+            for r in b0 + b1:
+                while (r['v'], r['ident'], r['seq']) in seen:
+                    r['seq'] = (r['seq'] + 1) % 65536
+                seen.add((r['v'], r['ident'], r['seq']))
+            sc = dict(mtu=1500, bursts=[b0, b1], ctl=[dict(stall=True, rmaddr=gone), dict()])
+        out.append(sc)
     return out
 
 
